@@ -415,6 +415,9 @@ func runOne(r *sim.Run) {
 		if cb.state == nil {
 			panic("cannot parse exported state")
 		}
+		if n := len(cb.state.Delta) - len(parent.state.Delta); n > 0 {
+			r.Count("probe:service_account_born_on_chain", int64(n))
+		}
 		// diagnostic (by-product): does the node's in-memory prior state still encode to what it committed?
 		{
 			cs := blockchain.GetInstance()
